@@ -31,6 +31,7 @@ RD = {
     "A": dns.rdata.from_text("IN", "A", "10.0.0.1"),
     "DS": dns.rdata.from_text("IN", "DS", "1 8 2 " + "00" * 32),
     "SOA": dns.rdata.from_text("IN", "SOA", "m. r. 1 2 3 4 5"),
+    "CNAME": dns.rdata.from_text("IN", "CNAME", "t.other."),
 }
 
 
@@ -118,7 +119,13 @@ def model_apply(content, op):
     verb, key = op[0], op[1]
     n = absname(key)
     if verb in ("add", "replace"):
-        content.setdefault(n, set()).add(op[2])
+        # CNAME and other (regular) data exclude each other at a node (dns.node): the newer wins
+        cur = content.setdefault(n, set())
+        if op[2] == "CNAME":
+            cur.clear()
+        else:
+            cur.discard("CNAME")
+        cur.add(op[2])
     elif verb == "del":
         if n in content:
             content[n].discard(op[2])
@@ -318,6 +325,9 @@ def single_ops():
             ops.append(("delnode", k))
         ops.append(("add", k, "A"))
         ops.append(("del", k, "A"))
+    ops.append(("add", "a", "CNAME"))
+    ops.append(("replace", "d", "CNAME"))
+    ops.append(("add", "b.a", "CNAME"))
     ops.append(("add", "a", "DS"))
     ops.append(("del", "a", "DS"))
     ops.append(("replace", "b.a", "NS"))
